@@ -25,8 +25,22 @@ fn marked_word(i: usize) -> [u8; 10] {
 }
 
 fn build_payload(fmt: u8, n: usize, ff: usize) -> Vec<u8> {
+    build_payload_x(fmt, n, ff, None)
+}
+
+/// `ffw`: the word slot with this index (never the last one) holds nothing but 0xFF bytes - a damaged word in the
+/// middle of the payload, not padding: it is a word like the others (examined once, at its own offset).
+fn build_payload_x(fmt: u8, n: usize, ff: usize, ffw: Option<usize>) -> Vec<u8> {
     let mut p = Vec::new();
     for i in 0..n {
+        if ffw == Some(i) {
+            // (in format 0 the six filler bytes of the slot stay zero: they belong to the format, not to the word)
+            p.extend(std::iter::repeat(0xFF).take(10));
+            if fmt == 0 {
+                p.extend_from_slice(&[0u8; 6]);
+            }
+            continue;
+        }
         p.extend_from_slice(&marked_word(i));
         if fmt == 0 {
             p.extend_from_slice(&[0u8; 6]);
@@ -37,7 +51,11 @@ fn build_payload(fmt: u8, n: usize, ff: usize) -> Vec<u8> {
 }
 
 fn check_preprocess(fmt: u8, n: usize, ff: usize) -> Option<(String, String)> {
-    let p = build_payload(fmt, n, ff);
+    check_preprocess_x(fmt, n, ff, None)
+}
+
+fn check_preprocess_x(fmt: u8, n: usize, ff: usize, ffw: Option<usize>) -> Option<(String, String)> {
+    let p = build_payload_x(fmt, n, ff, ffw);
     let model = payload::slice(&p, fmt);
     let got = val::guarded(|| preprocess_payload(&p).map(|c| c.map(|w| w[..10].to_vec()).collect::<Vec<_>>()));
     match (model, got) {
@@ -70,7 +88,11 @@ fn rdh_for(fmt: u8, payload_len: usize, page: u16, stop: u8) -> Rdh {
 }
 
 fn check_validator(fmt: u8, n: usize, ff: usize, mode: Mode) -> Option<(String, String)> {
-    let p = build_payload(fmt, n, ff);
+    check_validator_x(fmt, n, ff, mode, None)
+}
+
+fn check_validator_x(fmt: u8, n: usize, ff: usize, mode: Mode, ffw: Option<usize>) -> Option<(String, String)> {
+    let p = build_payload_x(fmt, n, ff, ffw);
     // an offset with a leading hexadecimal letter: the message must also be acceptable to the statistics stage
     // ... and, for every second shape, an offset beyond 2^32 (files larger than 4 GiB)
     let pos = if (n + ff) % 2 == 0 { 0xF000u64 } else { 0x1_0000_F000u64 };
@@ -306,6 +328,39 @@ pub fn run(tier: Tier) -> i32 {
             rep.violation(Violation { signature: format!("validator:{sig}"), description: format!("{d} [format {f}, {n} words, {k} x 0xFF, {}]", m.name()), replay: json!({"kind": "validator", "fmt": f, "n": n, "ff": k, "mode": m.name()}) });
         }
     }
+    // a word slot in the middle of the payload that holds nothing but 0xFF (a damaged word, not padding): every word
+    // count 3..=12 (quick: 3, 5, 8, 12) x every position but the last x 0..=15 padding bytes x both formats
+    {
+        let mut xc: Vec<(u8, usize, usize, usize)> = Vec::new();
+        for fmt in [0u8, 2] {
+            for n in (3..=12usize).filter(|n| tier.is_thorough() || [3, 5, 8, 12].contains(n)) {
+                for k in 0..n - 1 {
+                    for ff in 0..=15usize {
+                        xc.push((fmt, n, ff, k));
+                    }
+                }
+            }
+        }
+        let rx = par_map(&xc, |_, (f, n, ff, k)| {
+            let mut v = Vec::new();
+            if let Some(x) = check_preprocess_x(*f, *n, *ff, Some(*k)) {
+                v.push(("slice", x, "preprocess", ""));
+            }
+            for m in [Mode::SanityIts, Mode::AllIts] {
+                if let Some(x) = check_validator_x(*f, *n, *ff, m, Some(*k)) {
+                    v.push(("validator", x, "validator", m.name()));
+                }
+            }
+            v
+        });
+        for ((f, n, ff, k), r) in xc.iter().zip(rx.into_iter()) {
+            nontrivial += 1;
+            for (pre, (sig, d), kind, mode) in r {
+                rep.violation(Violation { signature: format!("{pre}:all-ff-word:{sig}"), description: format!("{d} [format {f}, {n} words of which word {k} is all 0xFF, {ff} x 0xFF padding {mode}]"), replay: json!({"kind": kind, "fmt": f, "n": n, "ff": ff, "ffw": k, "mode": mode}) });
+            }
+        }
+        rep.cov("all_ff_word_cases", json!(xc.len() * 3));
+    }
     // the separate row: word contents that imitate the other format's slot padding. A format-2 payload whose
     // second word starts with six zero bytes (bytes 10..15 of the payload) must still be cut in 10-byte words.
     {
@@ -404,9 +459,9 @@ pub fn replay(v: &serde_json::Value) -> i32 {
     let r = &v["replay"];
     let g = |k: &str| r[k].as_u64().unwrap_or(0) as usize;
     let res = match r["kind"].as_str().unwrap() {
-        "preprocess" => check_preprocess(g("fmt") as u8, g("n"), g("ff")),
+        "preprocess" => check_preprocess_x(g("fmt") as u8, g("n"), g("ff"), r["ffw"].as_u64().map(|x| x as usize)),
         "view" => check_view(g("fmt") as u8, g("n"), g("ff"), r["data"].as_bool().unwrap_or(false)),
-        "validator" => check_validator(g("fmt") as u8, g("n"), g("ff"), if r["mode"] == "check sanity its" { Mode::SanityIts } else { Mode::AllIts }),
+        "validator" => check_validator_x(g("fmt") as u8, g("n"), g("ff"), if r["mode"] == "check sanity its" { Mode::SanityIts } else { Mode::AllIts }, r["ffw"].as_u64().map(|x| x as usize)),
         _ => check_reset(g("fmt") as u8, g("ff"), g("lead")),
     };
     match res {
